@@ -29,11 +29,11 @@ def binop(I, op, a, b):
         if isinstance(op, ast.Sub):
             return VReal(to_real(a) - to_real(b)) if real else VInt(to_int(a) - to_int(b))
         if isinstance(op, ast.Mult):
-            return VReal(to_real(a) * to_real(b)) if real else VInt(to_int(a) * to_int(b))
+            return VReal(I.ver.mul_real(to_real(a), to_real(b))) if real else VInt(to_int(a) * to_int(b))
         if isinstance(op, ast.Div):
             d = to_real(b)
             I.require_defined(d != 0, "ZeroDivisionError", "division by zero")
-            return VReal(to_real(a) / d)
+            return VReal(I.ver.div_real(to_real(a), d))
         if isinstance(op, ast.FloorDiv):
             if real:
                 raise Unsupported("float floor division")
@@ -47,7 +47,9 @@ def binop(I, op, a, b):
                 raise Unsupported("float modulo")
             d = to_int(b)
             I.require_defined(d != 0, "ZeroDivisionError", "modulo by zero")
-            return VInt(py_mod(to_int(a), d))
+            if isinstance(const_of(VInt(d)), int):
+                return VInt(py_mod(to_int(a), d))
+            return VInt(I.ver.mod_term(I, to_int(a), d))
         if isinstance(op, ast.Pow):
             cb = const_of(b)
             ca = const_of(a)
@@ -539,7 +541,7 @@ def _havoc_path(I, src, env):
 
 def call_contract(I, c, f, args, kwargs):
     """modular call: assert pre, havoc frame, assume post (callee body is not looked at)."""
-    env = Env(None, f.module)
+    env = Env(getattr(I, "ghost_env", None), f.module)
     a = list(args)
     if f.selfv is not None:
         a = [f.selfv] + a
